@@ -190,6 +190,12 @@ fn main() {
                     ob.max_transfer_count = 0;
                 }
             }
+            // one script in eight: two objects carry the SAME content location (a new version of a file added while the
+            // previous one is still being sent) - both are objects in their own right and both must be announced
+            if objs.len() >= 2 && rng.chance(1, 8) {
+                let loc = objs[0].location.clone();
+                objs[1].location = loc;
+            }
             let mut script: Vec<(When, Op)> = vec![];
             // first object at start; others at arbitrary packet indices / times
             script.push((When::Start, Op::Add(0)));
